@@ -570,7 +570,7 @@ func diffSegments(a, b string) []string {
 }
 
 var prop = &hx.Prop{
-	ID: "C11", Gen: gen, Decode: decode, Exec: exec, Shrink: shrink,
+	ID: "C11", Gen: gen, Decode: decode, Focus: focus, Exec: exec, Shrink: shrink,
 	Components: map[string]string{
 		"interpreter (parser, nodes, contexts, superglobal nodes), std/net/http Server/Handler/middleware/onError/Request/Response": "real (instrumented copy of /repo)",
 		"Go net/http ServeMux":                            "real",
